@@ -123,6 +123,12 @@ def setVecs (h : Heap) : List Nat → List VecVal → Heap
   | o :: os, v :: vs => (h.setVec o v).setVecs os vs
   | _, _ => h
 
+/-- memoise the fingerprint of a vector object -/
+def memo (fpOf : VecVal → Int) (h : Heap) (oc : Nat) : Heap :=
+  match h.obj oc with
+  | some (.vec v _) => { h with objs := upd h.objs oc (some (.vec v (some (fpOf v)))) }
+  | _ => h
+
 /-- one step. `fpOf` computes the fingerprint of a vector's contents. -/
 def step (fpOf : VecVal → Int) (h : Heap) : HOp → Heap
   | .derive dst val =>
@@ -170,10 +176,7 @@ def step (fpOf : VecVal → Int) (h : Heap) : HOp → Heap
       | some (.vec v _) => { h with objs := upd h.objs o (some (.vec v (some (fpOf v)))) }
       | some (.tab cols) =>
         -- the table recomputes from its columns; each column memoises its own fingerprint
-        cols.foldl (fun h oc =>
-          match h.obj oc with
-          | some (.vec v _) => { h with objs := upd h.objs oc (some (.vec v (some (fpOf v)))) }
-          | _ => h) h
+        cols.foldl (memo fpOf) h
       | none => h
     | none => h
   | .noop => h
